@@ -529,6 +529,10 @@ impl<S: Storage> Builder<S> {
             .register(id, span.clone(), output_row_counter.clone());
 
         let (tx, rx) = async_broadcast::broadcast(16);
+        // Deactivate the receiver before the producer task can run: with only inactive receivers
+        // `broadcast` waits until a subscriber activates one, whereas items sent to the original
+        // active receiver would be dropped when it is deactivated after the task has started.
+        let rx = rx.deactivate();
         #[cfg(feature = "verif")]
         let verif_name = format!("{id}.{name}");
         let handle = tokio::task::Builder::default()
@@ -587,7 +591,7 @@ impl<S: Storage> Builder<S> {
             .expect("failed to spawn task");
 
         StreamSubscriber {
-            rx: rx.deactivate(),
+            rx,
             handle: Arc::new(AbortOnDropHandle(handle)),
         }
     }
